@@ -12,6 +12,8 @@ env.pop('GOSUMDB', None); env.pop('GOTOOLCHAIN', None)
 tag = rel.replace('/', '_')
 mdir = '/tmp/mut/' + tag
 shutil.rmtree(mdir, ignore_errors=True)
+if not os.path.exists('/verif/bin/mutate'):
+    subprocess.run(['go', 'build', '-o', '/verif/bin/mutate', '.'], cwd='/verif/tools/mutate', env=env, check=True)
 subprocess.run(['/verif/bin/mutate', '-file', '/repo/' + rel, '-out', mdir, '-funcs', funcs], check=True)
 index = [l.rstrip('\n').split('\t') for l in open(mdir + '/index.tsv')]
 wts = []
